@@ -114,6 +114,8 @@ class BaseCurve(Intface_BaseCurve):
                 np.moveaxis(self.ctrlpoints, 0, -1), matrix3d, axes=1
             )
             ctrlpoints = ctrlpoints @ other.ctrlpoints
+            if np.ndim(self.ctrlpoints) > 1 and np.ndim(other.ctrlpoints) == 1:
+                ctrlpoints = np.moveaxis(ctrlpoints, 0, -1)
             curve = Curve(vectmul, ctrlpoints)
             return curve
         numa, dena = self.fraction()
